@@ -783,7 +783,7 @@ class Unit:
         return c
 
     def extract_fragment(self, file, path, start_pat, end_pat, *, header, footer='}', rewrites=(),
-                         requires=(), ensures=(), label=None, name=None, canary=True):
+                         requires=(), ensures=(), label=None, name=None, canary=True, end_exclusive=False):
         """E2: a contiguous token range inside a function, wrapped into a function whose
         parameters (header) are the fragment's free variables. Surrounding control flow is NOT verified."""
         src = self._read(file)
@@ -796,7 +796,8 @@ class Unit:
         he = find_seq(toks, pat_tokens(end_pat), lo=hs[0][0])
         if len(he) < 1:
             raise AnchorLost(f'fragment end `{end_pat}` not found after start in {file}::{"::".join(path)}')
-        frag = body[toks[hs[0][0]].start:toks[he[0][1] - 1].end]
+        # end_exclusive: the fragment stops just BEFORE end_pat (robust when the fragment's own last tokens may change)
+        frag = body[toks[hs[0][0]].start:(toks[he[0][0] - 1].end if end_exclusive else toks[he[0][1] - 1].end)]
         label = label or f'{file}::{"::".join(path)}#fragment({name})'
         log = []
         frag = apply_all(frag, [StripAttrs()] + list(rewrites), log)
